@@ -6,20 +6,31 @@ use tokio::io::AsyncWriteExt;
 /// Write a file acquiring an exclusive lock.
 ///
 /// The file is created if it does not exist and
-/// truncated if it does exist.
+/// replaced if it does exist.
+///
+/// The content is written to a temporary file in the same
+/// directory which is then renamed over the target so that
+/// a process that dies part way through never leaves an
+/// empty or partially written file behind.
 pub async fn write_exclusive(
     path: impl AsRef<Path>,
     buf: impl AsRef<[u8]>,
 ) -> std::io::Result<()> {
+    let mut temp_path = path.as_ref().as_os_str().to_owned();
+    temp_path.push(".tmp");
+    let temp_path = std::path::PathBuf::from(temp_path);
+
     let file = OpenOptions::new()
         .create(true)
         .truncate(true)
         .read(true)
         .write(true)
-        .open(path.as_ref())
+        .open(&temp_path)
         .await?;
     let mut guard = file.lock_write().await.map_err(|e| e.error)?;
     guard.write_all(buf.as_ref()).await?;
     guard.flush().await?;
+    guard.inner_mut().sync_all().await?;
+    tokio::fs::rename(&temp_path, path.as_ref()).await?;
     Ok(())
 }
